@@ -144,6 +144,64 @@ func c9mixCorpus(b string) []any {
 	return out
 }
 
+// The flag family: ONE option at a time on the operation that must lose — every option of
+// Upgrade / Install that exists beside the model's flags or that the model proves irrelevant to
+// the lock path (C09_pending_check_all_flags, C09_name_check_all_flags).
+//   - upgrade | upgrade+X: the second upgrade's first history read shows the first one's pending
+//     revision: it must be refused ("another operation is in progress"), whatever X;
+//   - install | install+X: the second install's name check runs after the first one's create: it
+//     must be refused ("cannot reuse a name that is still in use"), whatever X (a dry run makes no check).
+//
+// A change that makes either check depend on an option meets its failing input here, deterministically.
+func c9flagFamily() []any {
+	type variant struct {
+		tag string
+		f   eng.Flags
+		x   conc.OpExt
+	}
+	common := []variant{
+		{"force", eng.Flags{}, conc.OpExt{Force: true}},
+		{"skip-schema", eng.Flags{}, conc.OpExt{SkipSchema: true}},
+		{"sub-notes", eng.Flags{}, conc.OpExt{SubNotes: true}},
+		{"dns", eng.Flags{}, conc.OpExt{EnableDNS: true}},
+		{"no-validate", eng.Flags{}, conc.OpExt{NoValidate: true}},
+		{"label", eng.Flags{}, conc.OpExt{Label: "team"}},
+		{"description", eng.Flags{}, conc.OpExt{Description: "d"}},
+		{"atomic", eng.Flags{Atomic: true}, conc.OpExt{}},
+		{"no-hooks", eng.Flags{NoHooks: true}, conc.OpExt{}},
+		{"take-ownership", eng.Flags{TakeOwnership: true}, conc.OpExt{}},
+		{"wait-for-jobs", eng.Flags{WaitForJobs: true}, conc.OpExt{}},
+		{"dry-run", eng.Flags{DryRun: true}, conc.OpExt{}},
+		{"dry-run=server", eng.Flags{DryRunOption: "server"}, conc.OpExt{}},
+		{"dry-run=client", eng.Flags{DryRunOption: "client"}, conc.OpExt{}},
+	}
+	up := append([]variant{
+		{"recreate", eng.Flags{}, conc.OpExt{Recreate: true}},
+		{"via-upgrade", eng.Flags{}, conc.OpExt{ViaUpgrade: true}},
+		{"reset-values", eng.Flags{}, conc.OpExt{ResetValues: true}},
+		{"reuse-values", eng.Flags{}, conc.OpExt{ReuseValues: true}},
+		{"reset-then-reuse", eng.Flags{}, conc.OpExt{ResetThenReuse: true}},
+		{"cleanup", eng.Flags{Cleanup: true}, conc.OpExt{}},
+		{"max-history", eng.Flags{MaxHistory: 5}, conc.OpExt{}},
+	}, common...)
+	in := append([]variant{
+		{"replace", eng.Flags{Replace: true}, conc.OpExt{}},
+		{"skip-crds", eng.Flags{}, conc.OpExt{SkipCRDs: true}},
+	}, common...)
+	var out []any
+	for i, v := range up {
+		out = append(out, conc.Case{Backend: c9backends[i%3], Pre: c9preOf(1), Note: "flag family: upgrade|upgrade+" + v.tag,
+			Ops: []eng.Op{c9op("upgrade", 10, eng.Flags{}, "a"), c9op("upgrade", 11, v.f, "a", "b")}, Ext: c9x(c9none, v.x),
+			Sched: []int{0, 0, 1, 1, 1, 1, 0, 0, 0}})
+	}
+	for i, v := range in {
+		out = append(out, conc.Case{Backend: c9backends[(i+1)%3], Note: "flag family: install|install+" + v.tag,
+			Ops: []eng.Op{c9op("install", 10, eng.Flags{}, "a"), c9op("install", 11, v.f, "b")}, Ext: c9x(c9none, v.x),
+			Sched: []int{0, 0, 1, 1, 1, 1, 0, 0, 0}})
+	}
+	return out
+}
+
 func c9mixExhaustive(r *rand.Rand, tier string) []any {
 	var out []any
 	two := append(append(c9flagScns(), c9mixScns()...), c9pruneScns()...)
